@@ -477,7 +477,7 @@ func setup(t *tape.Tape, n int, maxSwitches int) {
 	maxSw = maxSwitches
 	cur = -1 // the driver holds the baton
 	syncMode = 0
-	if t.Chance(1, 5) {
+	if t.Chance(1, 3) {
 		syncMode = 1
 	}
 	simhook.ResetVirtual()
